@@ -51,6 +51,13 @@ MUTANTS = [  # (contract module, qualname, file, regex, replacement, expect)  ex
  ("contracts.c15", "DAG.add_edges_from", "pgmpy/base/DAG.py", r"self.add_edge\(edge\[0\], edge\[1\]\)", "self.add_edge(edge[1], edge[0])", "break"),
  ("contracts.c15", "DAG.add_edges_from", "pgmpy/base/DAG.py", r"            for edge in ebunch:\n                self.add_edge\(edge\[0\], edge\[1\]\)", "            for pair in ebunch:\n                tail, head = pair[0], pair[1]\n                self.add_edge(tail, head)", "hold"),
  ("contracts.c08", "DAG.local_independencies", "pgmpy/base/DAG.py", r"        independencies = Independencies\(\)\n        for variable in \(\n            variables if isinstance\(variables, \(list, tuple\)\) else \[variables\]\n        \):\n            non_descendents = \(\n                set\(self.nodes\(\)\)\n                - \{variable\}\n                - set\(nx.dfs_preorder_nodes\(self, variable\)\)\n            \)", "        independencies = Independencies()\n        descendents = set()\n        for variable in (\n            variables if isinstance(variables, (list, tuple)) else [variables]\n        ):\n            descendents.update(nx.dfs_preorder_nodes(self, variable))\n            non_descendents = set(self.nodes()) - {variable} - descendents", "break"),
+ ("contracts.c11", "HillClimbSearch.estimate", "pgmpy/estimators/HillClimbSearch.py", r"tabu_list = deque\(maxlen=tabu_length\)", "tabu_list = deque(maxlen=tabu_length or None)", "break"),
+ ("contracts.c11", "HillClimbSearch.estimate", "pgmpy/estimators/HillClimbSearch.py", r"if best_operation is None or best_score_delta < epsilon:", "if best_operation is None or best_score_delta <= epsilon:", "break"),
+ ("contracts.c11", "HillClimbSearch.estimate", "pgmpy/estimators/HillClimbSearch.py", r"                current_model.remove_edge\(X, Y\)\n                current_model.add_edge\(Y, X\)", "                current_model.add_edge(Y, X)", "break"),
+ ("contracts.c11", "HillClimbSearch.estimate", "pgmpy/estimators/HillClimbSearch.py", r"            start_dag = start_dag.copy\(\)", "            pass", "break"),
+ ("contracts.c11", "HillClimbSearch.estimate", "pgmpy/estimators/HillClimbSearch.py", r"            if not nx.is_directed_acyclic_graph\(start_dag\):", "            if False:", "break"),
+ ("contracts.c11", "HillClimbSearch.estimate", "pgmpy/estimators/HillClimbSearch.py", r"                key=lambda t: t\[1\],", "                key=lambda t: -t[1],", "break"),
+ ("contracts.c11", "HillClimbSearch.estimate", "pgmpy/estimators/HillClimbSearch.py", r'                tabu_list.append\(\("-", best_operation\[1\]\)\)', '                tabu_list.append(("-", best_operation[1])); last_added = best_operation[1]', "hold"),
 ]
 
 
@@ -72,7 +79,7 @@ def main():
                 continue
             open(p, "w").write(re.sub(pat, rep, s, count=1))
             env = dict(os.environ, VERIF_REPO=d)
-            r = subprocess.run(["/verif/.ov/bin/python", "/verif/tools/e1try.py", mod, qual], capture_output=True, text=True, env=env, timeout=900)
+            r = subprocess.run(["/verif/.ov/bin/python", "/verif/tools/e1try.py", mod, qual], capture_output=True, text=True, env=env, timeout=2400)
             lines = [l for l in r.stdout.splitlines() if re.match(r"^(refuted|refuted-bounded|unknown|UNDECIDED|FAULT)", l)]
             broke = bool(lines)
             verdicts = sorted({l.split()[0] for l in lines})
